@@ -34,7 +34,7 @@ BUDGET = {
 }
 
 SAMPLE_KINDS = ['ok_mef', 'ok_mef_wide', 'ok_rfi', 'ok_one', 'ok_float', 'ok_float2', 'missing', 'small', 'gf_neg', 'gf_big', 'gf_just_above', 'gf_just_below', 'bad_units', 'beads_failed',
-                'no_curve', 'other_instrument', 'other_amp', 'other_volt', 'other_volt0']
+                'no_curve', 'other_instrument', 'other_instrument_lc', 'other_amp', 'other_volt', 'other_volt0', 'bad_units_sub']
 HEALTHY = ('ok_mef', 'ok_mef_wide', 'ok_rfi', 'ok_one', 'ok_float', 'ok_float2')
 BEAD_KINDS = ['ok', 'missing', 'small', 'gf_neg', 'gf_big', 'unequal_mef']
 
@@ -110,6 +110,10 @@ def sample_row(kind, sid):
         r.update(units={'FL1-H': 'MEF', 'FL2-H': 'MEF'})
     elif kind == 'other_instrument':
         r.update(beads='B3')
+    elif kind == 'other_instrument_lc':
+        r.update(beads='B3', units={'FL1-H': ' mef ', 'FL2-H': 'rfi'})      # units may be spelled in any letter case
+    elif kind == 'bad_units_sub':
+        r.update(units={'FL1-H': 'Chan', 'FL2-H': 'F'})                      # fragments of the known unit names are no units
     elif kind == 'other_amp':
         r.update(file='cells_lin.fcs')
     elif kind == 'other_volt':
@@ -271,7 +275,13 @@ def check_beads(kinds, seed, obs):
 def exhaustive_jobs(tier):
     jobs = [('samples', [])]
     jobs += [('samples', [k]) for k in SAMPLE_KINDS]
-    jobs += [('samples', [a, b]) for a in SAMPLE_KINDS for b in SAMPLE_KINDS]
+    # every ordered pair that contains a healthy row, every faulty kind with itself, and (quick tier) a third of the
+    # ordered pairs of two different faulty kinds; the thorough tier runs all of them
+    faulty = [k for k in SAMPLE_KINDS if k not in HEALTHY]
+    for ia, a in enumerate(SAMPLE_KINDS):
+        for ib, b in enumerate(SAMPLE_KINDS):
+            if a in HEALTHY or b in HEALTHY or a == b or tier == 'thorough' or (ia + 2 * ib) % 3 == 0:
+                jobs.append(('samples', [a, b]))
     jobs += [('beads', [])] + [('beads', [k]) for k in BEAD_KINDS] + [('beads', [a, b]) for a in BEAD_KINDS for b in BEAD_KINDS]
     # group into chunks so that one process reuses its fixture
     chunks = [jobs[i::16] for i in range(16)]
